@@ -596,6 +596,54 @@ func (e *Env) trCall(x *ECall) TV {
 			return TV{T: App("<", SBool, App("s_arr", SInt, a.T), e.u.allocBase), Ty: boolT}
 		}
 		return TV{T: App("<", SBool, a.T, e.u.allocBase), Ty: boolT}
+	case "lockerAddr": // the pointer held by a sync.Locker interface value
+		need(1)
+		return TV{T: App("iint", SInt, argOf(0).T), Ty: intT}
+	case "kindOf": // kindOf(lockAddr): which (type, field) a value-struct field address belongs to
+		need(1)
+		return TV{T: App("mod", SInt, argOf(0).T, IntLit(1000000007)), Ty: intT}
+	case "ownerOf": // ownerOf(lockAddr): the object holding the field
+		need(1)
+		return TV{T: App("div", SInt, argOf(0).T, IntLit(1000000007)), Ty: intT}
+	case "lockKind": // lockKind("pkg.Type", "field"): the kind number of that field
+		need(2)
+		tl, ok1 := x.Args[0].(*ELit)
+		fl, ok2 := x.Args[1].(*ELit)
+		if !ok1 || !ok2 {
+			e.fail("lockKind needs two string literals")
+		}
+		var ty types.Type
+		func() {
+			defer func() {
+				if r := recover(); r != nil {
+					if _, is := r.(specErr); !is {
+						panic(r)
+					}
+				}
+			}()
+			_, ty = e.resolveType(tl.Val)
+		}()
+		if ty == nil {
+			// the package declaring the type is not part of this run: no lock of that kind can occur
+			h := int64(0)
+			for _, c := range tl.Val + "." + fl.Val {
+				h = (h*31 + int64(c)) % 1000003
+			}
+			return TV{T: IntLit(-1 - h), Ty: intT}
+		}
+		st, ok := ty.Underlying().(*types.Struct)
+		if !ok {
+			e.fail("lockKind: %s is not a struct", tl.Val)
+		}
+		for i := 0; i < st.NumFields(); i++ {
+			if st.Field(i).Name() == fl.Val {
+				return TV{T: IntLit(int64(e.u.eng.tids.id(types.NewPointer(st.Field(i).Type()))*1000 + 100 + i)), Ty: intT}
+			}
+		}
+		e.fail("lockKind: no field %s in %s", fl.Val, tl.Val)
+	case "errIs": // errors.Is(e, target)
+		need(2)
+		return TV{T: App("err_is", SBool, argOf(0).T, argOf(1).T), Ty: boolT}
 	case "arrOf": // identity of the backing array of a slice
 		need(1)
 		return TV{T: App("s_arr", SInt, argOf(0).T), Ty: intT}
